@@ -82,7 +82,7 @@ ARGOPS = ('RESERVE', 'RESIZE', 'EXPECT')
 HLIST_OPS = ('NONE', 'INSERT', 'INSERT_PTR', 'INSERT_CREF', 'REMOVE', 'REMOVE_INDEX', 'RENAME', 'MERGE_COPY', 'MERGE_MOVE', 'COMPRESS', 'SORT_DESC',
              'COPY_CTOR', 'MOVE_ASSIGN')
 POST_OPS = (('CLEAR', 0), ('SORT_ASC', 0), ('COMPRESS', 0), ('RESIZE', 1), ('RESERVE', 3), ('COPY_CTOR', 0), ('MERGE_MOVE', 0), ('RENAME', 0),
-            ('REMOVE_INDEX', 0))
+            ('REMOVE_INDEX', 0), ('RESET', 0), ('MOVE_CTOR', 0), ('RESIZE', 0))
 
 def valid(pat, cap):
     return simulate(pat, cap) is not None
@@ -106,6 +106,10 @@ def queries(tier):
                                                'COPY_CTOR', 'MOVE_CTOR'))
         qs += op_queries('GGG', 4, 'GR', 2, (2,), ('NONE', 'INSERT', 'REMOVE', 'RENAME', 'MERGE_COPY', 'RESIZE', 'SORT_DESC'))
         for op, a in POST_OPS: qs.append(tq(op, 'GGR', 2, 'GG', 2, ARG=a, POST=1))
+        # default-constructed tables (capacity 0 -> 2 -> 4)
+        qs += op_queries('', 0, '', 0, (0, 2), ('NONE', 'INSERT', 'GET', 'REMOVE', 'REMOVE_INDEX', 'RENAME', 'MERGE_COPY', 'MERGE_MOVE', 'RESERVE', 'EXPECT',
+                                                'COMPRESS', 'CLEAR', 'SORT_ASC', 'COPY_CTOR', 'MOVE_ASSIGN'))
+        qs += op_queries('GG', 0, 'G', 0, (1,), ('NONE', 'INSERT', 'INDEX_KEY', 'REMOVE', 'MERGE_COPY', 'MERGE_MOVE', 'RESIZE', 'COMPRESS', 'SORT_DESC', 'COPY_ASSIGN'))
         qs += op_queries('GGR', 2, 'GG', 2, (1,), HLIST_OPS, HLIST=1)
         for n in range(0, 9): qs.append(hq(n, 'char'))
         for n in (1, 4): qs += [hq(n, 'char16_t'), hq(n, 'char32_t')]
